@@ -36,7 +36,7 @@ def candidates_c04():
 
 def env_model(name, grid, cands, mandatory, maxopt, lats, folds, modes, delays=(0,), eplens=(0,), spaces=("box",),
               bads=((0, "ok"),), maxcalls=4, reset_anywhere=True, clock="after_newdate", order="by_time",
-              null="in_space", invariants=(), properties=(), trade=False, tick=1, daylen=DAY, resetlens=(0,), specification=None):
+              null="in_space", invariants=(), properties=(), trade=False, tick=1, daylen=DAY, resetlens=(0,), specification=None, reuse=False):
     defs = {
         "Grid": list(grid),
         "Cand": list(cands),
@@ -57,7 +57,7 @@ def env_model(name, grid, cands, mandatory, maxopt, lats, folds, modes, delays=(
         "name": name,
         "module": tlagen.mc_module("MC", "Env", defs),
         "cfg": tlagen.cfg(defs, plain, invariants=invariants, properties=properties, specification=specification),
-        "ctx": {"trade": trade, "maxcalls": maxcalls, "tick": tick},
+        "ctx": {"trade": trade, "maxcalls": maxcalls, "tick": tick, "reuse": reuse},
         "invariants": list(invariants), "properties": list(properties),
     }
 
@@ -77,6 +77,7 @@ def replay_chunk(ctx, texts):
         hist = list(s["hist"])
         cfg = dict(cfg)
         cfg["tick"] = ctx.get("tick", 1)
+        cfg["reuse_transmitter"] = bool(ctx.get("reuse")) and (len(cfg["events"]) % 2 == 1)
         fails, n = replay_env.run_case(cfg, hist, ctx["trade"], seed=len(cfg["events"]), owned=ctx.get("owned"))
         out["n"] += 1
         out["ops"] += n
